@@ -48,7 +48,7 @@ type c04Case struct {
 
 // operations that are "repo-level or single-key" in the sense of the statement: entirely present or entirely absent
 var atomicKinds = map[string]bool{"kvput": true, "kvdel": true, "commit": true, "note": true, "log": true, "newversion": true,
-	"branch": true, "dagmerge": true, "newinst": true, "newrepo": true, "njpost": true, "njdel": true}
+	"branch": true, "dagmerge": true, "newinst": true, "newrepo": true, "delrepo": true, "njpost": true, "njdel": true}
 
 var snapOpts = drive.SnapOpts{LabelOff: [3]int32{0, 0, 0}, LabelSize: cworld.Ext}
 
@@ -261,7 +261,7 @@ func nodeOf(w *cworld.World, o cworld.Op) (string, bool) {
 	return w.OpenNode(o.Node)
 }
 
-var repoLevel = map[string]bool{"commit": true, "note": true, "log": true, "newversion": true, "branch": true, "dagmerge": true, "newinst": true, "delinst": true, "newrepo": true}
+var repoLevel = map[string]bool{"commit": true, "note": true, "log": true, "newversion": true, "branch": true, "dagmerge": true, "newinst": true, "delinst": true, "newrepo": true, "delrepo": true}
 
 func (r *run) close() {
 	if r.w != nil && r.w.C != nil {
@@ -326,6 +326,8 @@ func prefix(c c04Case) (*run, error) {
 		enable = []cworld.Op{{Kind: "lmmerge", Node: t.Node, A: t.A, B: t.A + 1}}
 	case "delinst":
 		enable = []cworld.Op{{Kind: "newinst", A: t.A}, {Kind: "kvput", Node: -1, A: 1, B: 1}}
+	case "delrepo":
+		enable = []cworld.Op{{Kind: "newrepo", A: t.A}}
 	case "dagmerge":
 		enable = []cworld.Op{{Kind: "commit", Node: 0}, {Kind: "branch", Node: 0}, {Kind: "kvput", Node: -1, A: 2, B: 2}, {Kind: "commit", Node: -1},
 			{Kind: "branch", Node: 0}, {Kind: "kvput", Node: -1, A: 3, B: 3}, {Kind: "commit", Node: -1}}
@@ -783,7 +785,7 @@ func checkC04(c c04Case) (c04Summary, error) {
 	return sum, nil
 }
 
-var targetKinds = []string{"kvput", "kvdel", "kvbatch", "commit", "note", "log", "newversion", "branch", "dagmerge", "newinst", "delinst", "newrepo",
+var targetKinds = []string{"kvput", "kvdel", "kvbatch", "commit", "note", "log", "newversion", "branch", "dagmerge", "newinst", "delinst", "newrepo", "delrepo",
 	"lmingest", "lmmerge", "lmcleave", "lmsplitsv", "lmrenumber", "annpost", "anndel", "annmove", "njpost", "njdel", "roipost"}
 
 func genOp(t *rapid.T, kinds []string, label string) cworld.Op {
@@ -810,7 +812,7 @@ func genC04(t *rapid.T, maxPoints int) c04Case {
 	return c
 }
 
-var metaKinds = []string{"newrepo", "newinst", "newversion", "branch", "commit", "dagmerge", "delinst"}
+var metaKinds = []string{"newrepo", "newinst", "newversion", "branch", "commit", "dagmerge", "delinst", "delrepo"}
 
 // TestC04CrashMeta: the same check with the target restricted to the repository-level operations (metadata spread over
 // several keys); the kinds are visited round-robin starting at the shard number, so that a handful of cases covers all.
